@@ -138,4 +138,36 @@ PROPS = {
             "coherence is checked on the implementation only",
         ],
     },
+    "C06": {
+        "profiles": ["debug", "release"],
+        "rule": "hostile inputs: vectors of every primitive element size, zero-sized elements, text and blob with declared lengths at every arithmetic boundary (0, 1, 1000, 2^20, 2^32+-1, 2^k+{-3..2} for k in 31,32,59..63, usize::MAX/11, usize::MAX/8, usize::MAX) always metered; "
+                "type tables that nest 100 and 1500 levels of opt / vec, recursive types (type O = opt O, type V = vec V) with values 400000 levels deep; 1-3 rounds of structure-aware mutation of valid messages and pure noise after the magic, "
+                "decoded untyped at the original, at upgraded and at no expected types with quotas drawn from {none, 0, 1, 10, 1000, 100000, random}; both build profiles; the outcome class (value / error / quota error / panic) and, on success, value and cost are compared; "
+                "every request is non-trivial; distinct = distinct request lines",
+        "trusted": [
+            "decoder mirror De.* (with cost accounting) and specification decoder Wire.*; the stack guard (stacker::remaining_stack) is modelled by a depth budget of 100000: between the two limits the answer depends on the real stack, so generated nesting depths stay at <= 1500 or at 400000",
+            "allocation is not measured directly: the harness runs under a process memory limit and an allocation failure aborts the run (reported as a harness failure)",
+        ],
+        "assumptions": [
+            "native (Rust-typed) expected types are exercised on the hostile stream in C08's corpus run",
+            "real stack exhaustion on small thread stacks, allocator failure and wasm targets are outside what a model can exhibit (runtime-dependent part, see DESIGN.md section 7)",
+        ],
+        "partial": [
+            "proved: leaf readers (LEB128 of both crates' flavours, lengths, principals, Nat::decode, u128 decode) and add_cost never panic, zero depth budget is an error; totality of the whole decoder and the resource bounds (steps <= c*(|input| + quota)) are not yet theorems",
+        ],
+    },
+    "C07": {
+        "profiles": ["debug"],
+        "rule": "valid messages of random possibly-recursive types (plus hand-written zero-sized-element vectors, surplus arguments/fields, mismatched options, references) decoded untyped at their own, upgraded, truncated, extended and empty expected type lists; "
+                "for each: measured cost under huge quotas, then quotas (c, c), (c-1, c), (c, c-1), (c+1, none), (none, c), (c/2, c/2), (0, none), (none, 0) and no quotas; byte-level mutants likewise; "
+                "the implementation's (value, decoding cost, skipping cost) or quota error must equal the model's; metamorphic oracles on the implementation: value unchanged by quotas, larger quotas never fail, cost independent of quotas, exact quota succeeds, one less fails with a quota error, cost >= number of values; "
+                "every request non-trivial; distinct = distinct request lines",
+        "trusted": [
+            "De.* mirrors de.rs line by line for the IDLValue / IgnoredAny visitors including every add_cost argument, the x50 penalty, back-tracking (+10, skip) and the lazily merged type table size charged by check_subtype",
+        ],
+        "assumptions": ["native visitors (derive-generated) have their own call pattern and cost; C08's corpus run checks quota neutrality for them on the implementation only"],
+        "partial": [
+            "proved about the accounting primitive: only quota errors, no state touched but the counters, monotone in each quota, amount independent of the quota, x50/x1 split while untyped, decoding-only when typed; the lock-step simulation lifting these to whole messages and the upper bound against the documented cost model are not yet theorems",
+        ],
+    },
 }
